@@ -33,7 +33,7 @@ class Responder:
 
 
 def gen_name(r):
-    alphabet = [chr(c) for c in range(32, 127)] + [chr(c) for c in range(160, 256)]
+    alphabet = [chr(c) for c in range(32, 127)] + [chr(c) for c in range(128, 256)]  # every latin-1 byte above ASCII, C1 range included
     style = r.random()
     if style < 0.4:
         return "".join(r.choice("abcdefghijklmnopqrstuvwxyz SPA") for _ in range(r.randrange(1, 16)))
